@@ -275,6 +275,14 @@ tasks:
       - {defer: echo d}
       - {for: [a, b], cmd: 'echo {{.ITEM}}'}
 `
+		// one task per boolean attribute with only that one set (a merge that fills one flag from
+		// another shows on these; on "attr" all flags are true)
+		flags := []string{"internal", "silent", "interactive", "ignore_error", "watch"}
+		names := []string{"attr"}
+		for _, f := range flags {
+			attr += "  only_" + f + ":\n    " + f + ": true\n    cmds: ['true']\n"
+			names = append(names, "only_"+f)
+		}
 		load := func(files map[string]string, name string) (*ast.Task, error) {
 			c08Write(dir, files)
 			e := task.NewExecutor(task.WithDir(dir), task.WithStdout(io.Discard), task.WithStderr(io.Discard))
@@ -289,53 +297,55 @@ tasks:
 		}
 		n := 0
 		var samples []any
-		base, err := load(map[string]string{"Taskfile.yml": attr}, "attr")
-		if err != nil {
-			res.HarnessErr = "loading the attribute task alone failed: " + err.Error()
-			return res
-		}
-		for _, form := range []string{"simple", "advanced", "flatten", "nested"} {
-			files := map[string]string{"inc.yml": attr}
-			target := "inc:attr"
-			switch form {
-			case "simple":
-				files["Taskfile.yml"] = "version: '3'\nincludes:\n  inc: ./inc.yml\ntasks:\n  r:\n    cmds: ['true']\n"
-			case "advanced":
-				files["Taskfile.yml"] = "version: '3'\nincludes:\n  inc:\n    taskfile: ./inc.yml\n    vars: {A: 1}\ntasks:\n  r:\n    cmds: ['true']\n"
-			case "flatten":
-				files["Taskfile.yml"] = "version: '3'\nincludes:\n  inc:\n    taskfile: ./inc.yml\n    flatten: true\ntasks:\n  r:\n    cmds: ['true']\n"
-				target = "attr"
-			case "nested":
-				files["Taskfile.yml"] = "version: '3'\nincludes:\n  mid: ./mid.yml\ntasks:\n  r:\n    cmds: ['true']\n"
-				files["mid.yml"] = "version: '3'\nincludes:\n  inc: ./inc.yml\ntasks:\n  m:\n    cmds: ['true']\n"
-				target = "mid:inc:attr"
-			}
-			got, err := load(files, target)
-			n++
+		for _, tname := range names {
+			base, err := load(map[string]string{"Taskfile.yml": attr}, tname)
 			if err != nil {
-				v := vlab.V("C08", "task_dropped", form, fmt.Sprintf("%s include: %v", form, err))
-				res.SigCounts[v.Sig]++
-				res.Violations = append(res.Violations, v)
-				continue
+				res.HarnessErr = "loading the attribute task alone failed: " + err.Error()
+				return res
 			}
-			skip := map[string]bool{"Task": true, "Namespace": true, "Aliases": true, "IncludeVars": true, "IncludedTaskfileVars": true, "Location": true, "Dir": true}
-			bv, gv := reflect.ValueOf(*base), reflect.ValueOf(*got)
-			for i := 0; i < bv.NumField(); i++ {
-				f := bv.Type().Field(i)
-				if skip[f.Name] || !f.IsExported() {
+			for _, form := range []string{"simple", "advanced", "flatten", "nested"} {
+				files := map[string]string{"inc.yml": attr}
+				target := "inc:" + tname
+				switch form {
+				case "simple":
+					files["Taskfile.yml"] = "version: '3'\nincludes:\n  inc: ./inc.yml\ntasks:\n  r:\n    cmds: ['true']\n"
+				case "advanced":
+					files["Taskfile.yml"] = "version: '3'\nincludes:\n  inc:\n    taskfile: ./inc.yml\n    vars: {A: 1}\ntasks:\n  r:\n    cmds: ['true']\n"
+				case "flatten":
+					files["Taskfile.yml"] = "version: '3'\nincludes:\n  inc:\n    taskfile: ./inc.yml\n    flatten: true\ntasks:\n  r:\n    cmds: ['true']\n"
+					target = tname
+				case "nested":
+					files["Taskfile.yml"] = "version: '3'\nincludes:\n  mid: ./mid.yml\ntasks:\n  r:\n    cmds: ['true']\n"
+					files["mid.yml"] = "version: '3'\nincludes:\n  inc: ./inc.yml\ntasks:\n  m:\n    cmds: ['true']\n"
+					target = "mid:inc:" + tname
+				}
+				got, err := load(files, target)
+				n++
+				if err != nil {
+					v := vlab.V("C08", "task_dropped", form, fmt.Sprintf("%s include: %v", form, err))
+					res.SigCounts[v.Sig]++
+					res.Violations = append(res.Violations, v)
 					continue
 				}
-				a, b := fmt.Sprintf("%+v", derefAll(bv.Field(i))), fmt.Sprintf("%+v", derefAll(gv.Field(i)))
-				if len(samples) < 2 && f.Name == "Platforms" {
-					samples = append(samples, map[string]any{"form": form, "field": f.Name, "definition": a, "merged": b})
-				}
-				if a != b {
-					v := vlab.V("C08", "attribute_lost", f.Name, fmt.Sprintf("%s include: attribute %s of the included task is %s, its definition says %s", form, f.Name, firstN(b, 120), firstN(a, 120)))
-					v.Scenario = name
-					v.Input = map[string]any{"files": files, "task": target}
-					res.SigCounts[v.Sig]++
-					if res.SigCounts[v.Sig] == 1 {
-						res.Violations = append(res.Violations, v)
+				skip := map[string]bool{"Task": true, "Namespace": true, "Aliases": true, "IncludeVars": true, "IncludedTaskfileVars": true, "Location": true, "Dir": true}
+				bv, gv := reflect.ValueOf(*base), reflect.ValueOf(*got)
+				for i := 0; i < bv.NumField(); i++ {
+					f := bv.Type().Field(i)
+					if skip[f.Name] || !f.IsExported() {
+						continue
+					}
+					a, b := fmt.Sprintf("%+v", derefAll(bv.Field(i))), fmt.Sprintf("%+v", derefAll(gv.Field(i)))
+					if len(samples) < 2 && f.Name == "Platforms" {
+						samples = append(samples, map[string]any{"form": form, "field": f.Name, "definition": a, "merged": b})
+					}
+					if a != b {
+						v := vlab.V("C08", "attribute_lost", f.Name, fmt.Sprintf("%s include: attribute %s of the included task %s is %s, its definition says %s", form, f.Name, tname, firstN(b, 120), firstN(a, 120)))
+						v.Scenario = name
+						v.Input = map[string]any{"files": files, "task": target}
+						res.SigCounts[v.Sig]++
+						if res.SigCounts[v.Sig] == 1 {
+							res.Violations = append(res.Violations, v)
+						}
 					}
 				}
 			}
